@@ -691,16 +691,14 @@ def main():
         "static mode: registers and export-override nodes are not evaluated by evaluateStatically (skipped); cones consisting only of zero-width signals make extractNonStraddling assert on an empty state vector (counted as empty-state-assert)",
     ]
     # ---- layer (b): frontend operators (own script, own Coq file); its lines are re-issued under C03
-    p = subprocess.run([sys.executable, os.path.join(here, "C03b.py")], capture_output=True, text=True, errors="replace")
+    evdir = str(V.BUILD / "work" / "C03b_evidence")       # "C03b" is not a property id: its evidence is merged into evidence/C03.json
+    p = subprocess.run([sys.executable, os.path.join(here, "C03b.py")], capture_output=True, text=True, errors="replace",
+                       env=dict(os.environ, VERIF_EVIDENCE_DIR=evdir))
     evb = {}
     try:
-        evb = json.load(open(os.path.join(here, "..", "evidence", "C03b.json")))
+        evb = json.load(open(os.path.join(evdir, "C03b.json")))
     except Exception as e:
         evb = {"error": "no evidence written by checks/C03b.py: %s" % e}
-    try:
-        os.remove(os.path.join(here, "..", "evidence", "C03b.json"))   # not a property id: merged into evidence/C03.json below
-    except OSError:
-        pass
     covb = evb.get("coverage", {})
     rep.cov["frontend_operator_layer"] = {k: v for k, v in covb.items() if k not in ("trusted_base",)}
     rep.cov["obligations"] += covb.get("obligations", 0); rep.cov["discharged"] += covb.get("discharged", 0)
